@@ -6,6 +6,7 @@ import (
 	"os"
 	"sort"
 	"strings"
+	"time"
 
 	"verifharness/explore"
 
@@ -264,6 +265,34 @@ func progs() []prog {
 				got = 1
 				mu.Unlock()
 			}, Observe: obs(func() string { return fmt.Sprint(got) })}
+		}},
+		{name: "select with a time-out: the limit may or may not expire before the value arrives", outcomes: 2, sc: func() explore.Exec {
+			got := ""
+			return explore.Exec{Body: func() {
+				c := make(chan int, 1)
+				mc.Go(func() { mc.Send(c, 7) })
+				t := mc.NewTimer(time.Second)
+				sel := mc.NewSelect(false)
+				rv := mc.SelAddRecv(sel, (<-chan int)(c))
+				mc.SelAddRecv(sel, t.C)
+				switch sel.Wait() {
+				case 0:
+					v, _ := rv.Get()
+					got = fmt.Sprint("value ", v)
+				case 1:
+					got = "timed out"
+				}
+				t.Stop()
+			}, Observe: obs(func() string { return got })}
+		}},
+		{name: "a stopped timer never fires", outcomes: 1, deadlock: true, sc: func() explore.Exec {
+			got := ""
+			return explore.Exec{Body: func() {
+				t := mc.NewTimer(time.Second)
+				t.Stop()
+				mc.Recv(t.C) // blocks for ever
+				got = "fired"
+			}, Observe: obs(func() string { return got })}
 		}},
 		{name: "len(ch) observes the buffer (racing a sender)", outcomes: 2, sc: func() explore.Exec {
 			n := -1
